@@ -229,6 +229,16 @@ def cloud_case(draw):
     return dict(P=P.tolist(), B=rows, kind=kind)
 
 
+def _dist_to_span(P, b):
+    """distance of b from the affine span of the cloud (exact to rounding; the LP's equality tolerance is only 1e-7)"""
+    c = P.mean(axis=0)
+    U, sv_, Vt = np.linalg.svd(P - c, full_matrices=False)
+    r = int(np.sum(sv_ > 1e-9 * max(sv_[0], 1e-300)))
+    Q = Vt[:r]
+    v = b - c
+    return float(np.linalg.norm(v - Q.T @ (Q @ v)))
+
+
 def body_cloud(case):
     dreye = _dreye()
     P = np.asarray(case["P"], dtype=float)
@@ -250,7 +260,7 @@ def body_cloud(case):
         elif full and t is not None and t >= 1e-6:
             labs.append("must-accept")
             check(bool(g), "cloud:inside-rejected", f"point strictly inside the hull (weight margin {t:.3g}) rejected", observed=dict(b=b.tolist()))
-        elif (not full) and t is not None and t >= 1e-3:
+        elif (not full) and t is not None and t >= 1e-3 and _dist_to_span(P, b) <= 1e-13 * span:
             # flat cloud: a convex combination with all weights well above zero is a member (soundness/completeness clause)
             labs.append("flat-member")
             check(bool(g), "cloud:flat-member-rejected", f"convex combination of a flat cloud (weight margin {t:.3g}) rejected", observed=dict(b=b.tolist()))
